@@ -328,7 +328,7 @@ class CTMCCredit(CTMCGrid):
     ):
         l, r = compute_truncation(model=model, h=h)
         if (
-            isinstance(level_a, float)
+            not isinstance(level_a, list)
             and not l < level_a < -h
             or isinstance(level_a, list)
             and any(not l < a < -h for a in level_a)
